@@ -21,23 +21,23 @@ template <class F> static void with_part(int part, F f) { if (part == 0) { tbb::
 // ---- 2d
 static void c2d(long c) { int part = c % 4; c /= 4; int P = 1 + c % 3; c /= 3; int rows = c % 5; c /= 5; int cols = c % 5; c /= 5; int rg = 1 + c % 2, cg = 1 + (c / 2) % 2;
     vtbb::init(P); std::map<std::pair<int, int>, int> hits;
-    with_part(part, [&](auto& p) { tbb::parallel_for(tbb::blocked_range2d<int>(0, rows, rg, 0, cols, cg), [&](const tbb::blocked_range2d<int>& r) { if (r.rows().empty() || r.cols().empty()) vf_fail("empty 2d chunk"); for (int i = r.rows().begin(); i < r.rows().end(); i++) for (int j = r.cols().begin(); j < r.cols().end(); j++) hits[{i, j}]++; vtbb::interleave(); }, p); });
+    with_part(part, [&](auto& p) { tbb::parallel_for(tbb::blocked_range2d<int>(0, rows, rg, 0, cols, cg), [&](const tbb::blocked_range2d<int>& r) { if (r.rows().empty() || r.cols().empty()) vf_fail("empty 2d chunk"); for (int i = r.rows().begin(); i < r.rows().end(); i++) for (int j = r.cols().begin(); j < r.cols().end(); j++) hits[{i, j}]++; vtbb::nested(); vtbb::interleave(); }, p); });
     vtbb::finish(); if ((int)hits.size() != rows * cols) vf_fail("2d: %zu of %d cells visited", hits.size(), rows * cols); for (auto& kv : hits) if (kv.second != 1 || kv.first.first >= rows || kv.first.second >= cols) vf_fail("2d: cell (%d,%d) visited %d times", kv.first.first, kv.first.second, kv.second);
     vf_outcome("2d part=%d P=%d %dx%d g=%d,%d steals=%ld", part, P, rows, cols, rg, cg, vtbb::stats().steals); }
 static void c3d(long c) { int part = c % 4; c /= 4; int P = 1 + c % 2; c /= 2; int a = c % 4; c /= 4; int b = c % 4; c /= 4; int d = c % 3;
     vtbb::init(P); std::map<int, int> hits;
-    with_part(part, [&](auto& p) { tbb::parallel_for(tbb::blocked_range3d<int>(0, a, 1, 0, b, 1, 0, d, 1), [&](const tbb::blocked_range3d<int>& r) { for (int i = r.pages().begin(); i < r.pages().end(); i++) for (int j = r.rows().begin(); j < r.rows().end(); j++) for (int k = r.cols().begin(); k < r.cols().end(); k++) hits[i * 100 + j * 10 + k]++; vtbb::interleave(); }, p); });
+    with_part(part, [&](auto& p) { tbb::parallel_for(tbb::blocked_range3d<int>(0, a, 1, 0, b, 1, 0, d, 1), [&](const tbb::blocked_range3d<int>& r) { for (int i = r.pages().begin(); i < r.pages().end(); i++) for (int j = r.rows().begin(); j < r.rows().end(); j++) for (int k = r.cols().begin(); k < r.cols().end(); k++) hits[i * 100 + j * 10 + k]++; vtbb::nested(); vtbb::interleave(); }, p); });
     vtbb::finish(); if ((int)hits.size() != a * b * d) vf_fail("3d: %zu of %d cells", hits.size(), a * b * d); for (auto& kv : hits) if (kv.second != 1) vf_fail("3d: cell %d visited %d times", kv.first, kv.second);
     vf_outcome("3d part=%d P=%d %dx%dx%d steals=%ld", part, P, a, b, d, vtbb::stats().steals); }
 static void cnd(long c) { int part = c % 4; c /= 4; int P = 1 + c % 2; c /= 2; int a = c % 4; c /= 4; int b = c % 4; c /= 4; int g = 1 + c % 2;
     vtbb::init(P); std::map<int, int> hits; using R = tbb::blocked_nd_range<int, 2>;
-    with_part(part, [&](auto& p) { tbb::parallel_for(R({0, a, (size_t)g}, {0, b, 1}), [&](const R& r) { for (int i = r.dim(0).begin(); i < r.dim(0).end(); i++) for (int j = r.dim(1).begin(); j < r.dim(1).end(); j++) hits[i * 10 + j]++; vtbb::interleave(); }, p); });
+    with_part(part, [&](auto& p) { tbb::parallel_for(R({0, a, (size_t)g}, {0, b, 1}), [&](const R& r) { for (int i = r.dim(0).begin(); i < r.dim(0).end(); i++) for (int j = r.dim(1).begin(); j < r.dim(1).end(); j++) hits[i * 10 + j]++; vtbb::nested(); vtbb::interleave(); }, p); });
     vtbb::finish(); if ((int)hits.size() != a * b) vf_fail("nd: %zu of %d cells", hits.size(), a * b); for (auto& kv : hits) if (kv.second != 1) vf_fail("nd: cell %d visited %d times", kv.first, kv.second);
     vf_outcome("nd part=%d P=%d %dx%d g=%d steals=%ld", part, P, a, b, g, vtbb::stats().steals); }
 // ---- huge 1-d ranges: chunks must tile [0,n)
 static void chuge(long c) { int part = c % 4; c /= 4; int P = 1 + c % 3; c /= 3; static const unsigned long long NS[] = {(1ull << 24) + 1, (1ull << 32) + 5, (1ull << 33) - 1, (1ull << 40) + 3, ~0ull - 2, (1ull << 63) + 1, 3000000007ull}; unsigned long long n = NS[c % 7]; c /= 7; unsigned long long leaves = (unsigned long long[]){5, 16, 33}[c % 3];
     unsigned long long g = n / leaves + 1; vtbb::init(P); std::vector<std::pair<unsigned long long, unsigned long long>> ch;
-    with_part(part, [&](auto& p) { tbb::parallel_for(tbb::blocked_range<unsigned long long>(0, n, g), [&](const tbb::blocked_range<unsigned long long>& r) { if (!(r.begin() < r.end())) vf_fail("huge: empty chunk"); ch.push_back({r.begin(), r.end()}); vtbb::interleave(); }, p); });
+    with_part(part, [&](auto& p) { tbb::parallel_for(tbb::blocked_range<unsigned long long>(0, n, g), [&](const tbb::blocked_range<unsigned long long>& r) { if (!(r.begin() < r.end())) vf_fail("huge: empty chunk"); ch.push_back({r.begin(), r.end()}); vtbb::nested(); vtbb::interleave(); }, p); });
     vtbb::finish(); std::sort(ch.begin(), ch.end()); unsigned long long at = 0; for (auto& x : ch) { if (x.first != at) vf_fail("huge range n=%llu g=%llu: chunks %s at %llu (next chunk starts at %llu)", n, g, x.first < at ? "overlap" : "leave a gap", at, x.first); at = x.second; if (part == 0 && (x.second - x.first > g || x.second - x.first < (g + 1) / 2)) vf_fail("huge: simple_partitioner chunk size %llu for grain %llu", x.second - x.first, g); }
     if (at != n) vf_fail("huge range: chunks end at %llu, range ends at %llu", at, n); vf_outcome("huge part=%d P=%d n=%llu chunks=%zu steals=%ld", part, P, n, ch.size(), vtbb::stats().steals); }
 // ---- strided parallel_for(first,last,step)
@@ -49,12 +49,12 @@ static void cstr(long c) { int P = 1 + c % 2; c /= 2; int kind = c % 4; c /= 4; 
     else if (kind == 2) strided<short>((short)(32750 + f), (short)(32750 + f + len), (short)st, P, "short near max"); else strided<unsigned long long>(~0ull - 20 + f, ~0ull - 20 + f + len, (unsigned long long)st, P, "ull near max"); }
 // ---- parallel_for_each
 static void cfe(long c) { int P = 1 + c % 3; c /= 3; int fwd = c % 2; c /= 2; int n = c % 6; c /= 6; int feed = c % 3;   // each item < feed adds item+10 (one level)
-    vtbb::init(P); std::map<int, int> hits; auto body = [&](int x, tbb::feeder<int>& fd) { hits[x]++; if (x < feed) fd.add(x + 10); vtbb::interleave(); };
+    vtbb::init(P); std::map<int, int> hits; auto body = [&](int x, tbb::feeder<int>& fd) { hits[x]++; if (x < feed) fd.add(x + 10); vtbb::nested(); vtbb::interleave(); };
     if (fwd) { std::forward_list<int> l; for (int i = n - 1; i >= 0; i--) l.push_front(i); tbb::parallel_for_each(l.begin(), l.end(), body); } else { std::vector<int> v; for (int i = 0; i < n; i++) v.push_back(i); tbb::parallel_for_each(v.begin(), v.end(), body); }
     vtbb::finish(); int want = n + (feed < n ? feed : n); if ((int)hits.size() != want) vf_fail("parallel_for_each: %zu distinct items processed, expected %d", hits.size(), want); for (auto& kv : hits) if (kv.second != 1) vf_fail("parallel_for_each: item %d processed %d times", kv.first, kv.second);
     vf_outcome("for_each P=%d %s n=%d feed=%d steals=%ld", P, fwd ? "forward" : "random", n, feed, vtbb::stats().steals); }
 // ---- parallel_invoke
-static int inv_hits[10]; template <int I> static void fi() { inv_hits[I]++; vtbb::interleave(); }
+static int inv_hits[10]; template <int I> static void fi() { inv_hits[I]++; vtbb::nested(); vtbb::interleave(); }
 static void cinv(long c) { int P = 1 + c % 3; c /= 3; int n = 2 + c % 9; vtbb::init(P); for (int i = 0; i < 10; i++) inv_hits[i] = 0;
     switch (n) { case 2: tbb::parallel_invoke(fi<0>, fi<1>); break; case 3: tbb::parallel_invoke(fi<0>, fi<1>, fi<2>); break; case 4: tbb::parallel_invoke(fi<0>, fi<1>, fi<2>, fi<3>); break; case 5: tbb::parallel_invoke(fi<0>, fi<1>, fi<2>, fi<3>, fi<4>); break;
         case 6: tbb::parallel_invoke(fi<0>, fi<1>, fi<2>, fi<3>, fi<4>, fi<5>); break; case 7: tbb::parallel_invoke(fi<0>, fi<1>, fi<2>, fi<3>, fi<4>, fi<5>, fi<6>); break; case 8: tbb::parallel_invoke(fi<0>, fi<1>, fi<2>, fi<3>, fi<4>, fi<5>, fi<6>, fi<7>); break;
